@@ -82,8 +82,11 @@ theorem verNum_verOf (req : Request) : verNum (verOf req) = req.version := by
 
 theorem errorItem_length (hdr : Ver) (now : Int) (rsn : Nat) (text : TTLV.Bytes) :
     (encode (errorItem hdr now rsn text)).length = 136 + text.length + padLen text.length := by
-  simp [errorItem, Envelope.buildErrorResponse, Envelope.buildResponse, Envelope.buildItem, Envelope.optItem, encode,
-    encodeList, PVal.valBytes, be_length, header_length, padLen]
+  have p4 : padLen 4 = 4 := rfl
+  have p8 : padLen 8 = 0 := rfl
+  simp only [errorItem, Envelope.buildErrorResponse, Envelope.buildResponse, Envelope.buildItem, Envelope.optItem,
+    List.map_cons, List.map_nil, List.nil_append, encode, encodeList, List.length_append, header_length, PVal.valBytes,
+    be_length, zeros_length, List.length_nil, p4, p8]
   omega
 
 /-- **`EncoderOk`** (C12's contract on the encoder parameter) holds in the byte-level world whenever the session's
@@ -110,10 +113,10 @@ def sessionText (_hdr : Ver) (rsn : Nat) : TTLV.Bytes :=
 example (hdr : Ver) (rsn : Nat) : (sessionText hdr rsn).length + 144 ≤ 1048576 := by
   unfold sessionText
   split
-  · decide
+  · decide +kernel
   · split
-    · decide
-    · split <;> decide
+    · decide +kernel
+    · split <;> decide +kernel
 
 /-! ### what the client receives for a decoded frame -/
 
@@ -239,7 +242,8 @@ theorem rejected_bytes (b : ByteWorld) (req : Request) (now : Int) (reason : Nat
     (htext : b.errText (verOf req) reason = bytesOf msg) :
     sentBytes b now (verOf req) (.error (verOf req) reason) =
       responseBytes req.version now [] (.rejected reason msg) := by
-  simp only [sentBytes, responseBytes, responseItem, Option.map_some, errorItem, htext, verPair, verOf]
+  simp only [sentBytes, htext]
+  simp only [responseBytes, responseItem, Option.map_some, errorItem, verPair, verOf]
 
 /-- an undecodable frame never reaches the engine and changes nothing, in the byte-level world as in every world -/
 theorem undecodable_frame_is_noop (b : ByteWorld) (cfg : SessionCfg) (peer : Option Cert) (e : Engine) (data : TTLV.Bytes)
